@@ -274,7 +274,7 @@ def gen_multi_history(rng, keys, n_sk, n_ev, p_merge=0.12, p_saveload=0.06, p_co
                 # past 2^64 after 64 of them; counters must simply saturate)
                 events.append(["selfmerge", int(rng.integers(0, n_sk)), [1, 2, 23, 54, 64, 70][int(rng.integers(0, 6))]])
             elif rng.random() < 0.6:
-                events.append(["copy", int(rng.integers(0, n_sk)), ["deepcopy", "pickle", "copy"][int(rng.integers(0, 3))]])
+                events.append(["copy", int(rng.integers(0, n_sk)), ["deepcopy", "pickle", "copy", "shallow"][int(rng.integers(0, 4))]])
             else:
                 events.append(["tmpmerge", int(rng.integers(0, n_sk)), [gen_op(rng, keys, **dict(opkw, failing=False)) for _ in range(int(rng.integers(1, 4)))]])
             continue
